@@ -217,8 +217,12 @@ def load_3DXML(file_obj, *args, **kwargs):
                 mesh_image = images.get(material_id)  # texture for this Rep, if any
 
             for faces in Rep.iter("{*}Faces"):
-                triangles = []  # mesh triangles for this Faces element
                 for face in faces.iter("{*}Face"):
+                    # the triangles of this Face element: they are added to
+                    # the Rep and colored once per Face, a list that kept
+                    # growing over the Faces element was added again for
+                    # every Face (n Face elements gave n (n + 1) / 2 faces)
+                    triangles = []
                     # Each Face may have optional strips, triangles or fans attributes
                     if "strips" in face.attrib:
                         # triangle strips, sequence of arbitrary length lists
